@@ -135,6 +135,9 @@ impl Property for C01 {
             .prop_map(|((world, owners), signed_mask, caller, tamper, fault)| Spec { world, owners, signed_mask, caller, tamper, fault })
             .boxed()
     }
+    fn concurrent() -> bool {
+        true
+    }
     fn check(spec: &Spec, env: &mut Env) -> Outcome {
         let mut o = Outcome::new();
         let n = spec.owners.len();
